@@ -14,18 +14,31 @@ Inductive stmt :=
 | SDropArena               (* drop(a) *)
 | SMoveArena               (* let b = a; *)
 | SSpawnShare              (* two threads use &a at the same time *)
-| SSpawnMove.              (* the arena is moved to another thread and dropped there *)
+| SSpawnMove               (* the arena is moved to another thread and dropped there *)
+| SSpawnRef (r : nat).     (* the collection r is moved to another thread, which grows it while this thread allocates *)
 
 Record facts := mkFacts {
   f_alloc_shared : bool;   (* allocation methods take &self and their result borrows from it *)
   f_reset_excl : bool;     (* reset takes &mut self *)
   f_iter_excl : bool;      (* iter_allocated_chunks takes &mut self *)
   f_send : bool;           (* Bump: Send *)
-  f_sync : bool            (* Bump: Sync *)
+  f_sync : bool;           (* Bump: Sync *)
+  f_coll_send : bool       (* Vec / String: Send (they hold a &Bump) *)
 }.
 
 Definition facts_ok (f : facts) : bool :=
-  f_alloc_shared f && f_reset_excl f && f_iter_excl f && negb (f_sync f).
+  f_alloc_shared f && f_reset_excl f && f_iter_excl f && negb (f_sync f) && negb (f_coll_send f).
+
+(* the auto-trait questions a client can ask, and what the facts answer *)
+Inductive tquery := QBumpSend | QBumpSync | QRefBumpSend | QCollSend | QCollSync.
+Definition trait_holds (f : facts) (q : tquery) : bool :=
+  match q with
+  | QBumpSend => f_send f
+  | QBumpSync => f_sync f
+  | QRefBumpSend => f_sync f          (* &T: Send iff T: Sync *)
+  | QCollSend => f_coll_send f || f_sync f
+  | QCollSync => f_sync f
+  end.
 
 (* ---------- what really happens ---------- *)
 Record dyn := mkDyn {
@@ -50,6 +63,7 @@ Definition dstep (d : dyn) (s : stmt) : option dyn :=
   | SMoveArena => if d_arena d then Some (mkDyn [] [] false) else None
   | SSpawnShare => None                                   (* two threads bump the same finger: a data race *)
   | SSpawnMove => if d_arena d then Some (mkDyn [] [] false) else None
+  | SSpawnRef _ => None                                   (* the same race, through the collection's &Bump *)
   end.
 
 Fixpoint drun (d : dyn) (p : list stmt) : bool :=         (* true = no misuse happened *)
@@ -102,10 +116,13 @@ Fixpoint accepts (f : facts) (c : st) (p : list stmt) : bool :=
       | SDropArena | SMoveArena =>
           s_arena c && no_live_refs f c rest && no_live_iters f c rest &&
           accepts f (mkSt (s_refs c) (s_iters c) false) rest
-      | SSpawnShare => s_arena c && f_sync f && accepts f c rest
+      | SSpawnShare => s_arena c && f_sync f && no_live_iters f c rest && accepts f c rest
       | SSpawnMove =>
           s_arena c && f_send f && no_live_refs f c rest && no_live_iters f c rest &&
           accepts f (mkSt (s_refs c) (s_iters c) false) rest
+      | SSpawnRef r =>
+          s_arena c && memb r (s_refs c) && (f_coll_send f || f_sync f) && negb (uses_ref r rest) &&
+          no_live_iters f c rest && accepts f c rest
       end
   end.
 
@@ -128,8 +145,8 @@ Proof. reflexivity. Qed.
 Theorem accepts_sound f : facts_ok f = true ->
   forall p c d, agree c d p -> accepts f c p = true -> drun d p = true.
 Proof.
-  intros F. unfold facts_ok in F. rewrite !andb_true_iff in F. destruct F as [[[Fa Fr] Fi] Fs].
-  apply negb_true_iff in Fs.
+  intros F. unfold facts_ok in F. rewrite !andb_true_iff in F. destruct F as [[[[Fa Fr] Fi] Fs] Fc].
+  apply negb_true_iff in Fs. apply negb_true_iff in Fc.
   induction p as [|s rest IH]; intros c d (Ha & Hr & Hi) Acc; [reflexivity|].
   cbn [drun]. destruct s; cbn [accepts dstep] in *.
   - (* SAlloc *)
@@ -198,6 +215,8 @@ Proof.
       pose proof (forallb_memb _ _ _ L1 M) as Q. cbv beta in Q. rewrite U in Q. discriminate.
     + intros i M U. exfalso. unfold no_live_iters in L2. rewrite Fi in L2. cbn [negb orb] in L2.
       pose proof (forallb_memb _ _ _ L2 M) as Q. cbv beta in Q. rewrite U in Q. discriminate.
+  - (* SSpawnRef: never accepted, neither Vec/String nor &Bump is Send *)
+    rewrite Fs, Fc in Acc. cbn [orb] in Acc. rewrite !andb_false_r in Acc. cbn in Acc. discriminate.
 Qed.
 
 Lemma agree0 p : agree st0 dyn0 p.
